@@ -232,9 +232,20 @@ def c11(ctx):
             try:
                 t.realise(a, None)
                 shutil.copytree(a, b, symlinks=True, copy_function=shutil.copy2)
-                rcs = [run_cli(['update', '-t', '-H', ' '.join(hashes), x], t0, tz, key) for x in (a, b)]
+                first = r.choice(['update', 'update', 'create'])
+                rcs = [run_cli([first, '-t', '-H', ' '.join(hashes), x], t0, tz, key) for x in (a, b)]
                 if rcs != [0, 0]:
                     continue
+                # the TIMESTAMP written by this first run is not later than its start either (the clock advances while it scans)
+                for x0 in manifests_of(listing(a)).get('Manifest', b'').split(b'\n'):
+                    if x0.startswith(b'TIMESTAMP '):
+                        try:
+                            ts0 = datetime.datetime.strptime(x0.decode(), 'TIMESTAMP %Y-%m-%dT%H:%M:%SZ').replace(tzinfo=datetime.timezone.utc).timestamp()
+                        except ValueError:
+                            ts0 = None
+                        if ts0 is None or ts0 > t0:
+                            ctx.violation('spec', f'gemato {first} --timestamp: {x0!r} is later than the start of the scan '
+                                          f'({datetime.datetime.utcfromtimestamp(t0).isoformat()}Z), TZ={tz}', {'tz': tz, 'command': first, 'tree': PT.describe(t)})
                 if b'TIMESTAMP' not in manifests_of(listing(a)).get('Manifest', b''):
                     # nothing else changed, so the requested TIMESTAMP was not written (set_timestamp queues nothing):
                     # there is no previous TIMESTAMP to be incremental against
